@@ -314,10 +314,85 @@ def run(ctx):
             cuts = sorted(set(min(len(stream) - 1, max(1, c + rng.randint(-3, 3)))
                               for c in range(chunk, len(stream), chunk)))
             check_one(ctx, 10_000 + k, [("long", str(len(stream)), "mixed", False)], stream, "bytes", cuts, None)
+    multi_client_tier(ctx)
     if ctx.tier == "thorough" and ctx.shard[0] == 0:
         real_child_tier(ctx)
     ctx.require_reached("sessions")
     ctx.require_reached("cuts_inside_multibyte_char")
+
+
+def multi_client_tier(ctx):
+    """Several StdioClient objects in one process: alive together with their reads interleaved, or one after the
+    other where the earlier one stopped in the middle of a line. Each must frame exactly the bytes of its own child."""
+    from vf.stdio_harness import run_multi_stdio
+    rng = ctx.sub_rng("multi")
+    specs = stream_specs(ctx)
+    n_cases = 40 if ctx.tier == "quick" else 600
+    for k in range(n_cases):
+        mode = ("concurrent", "sequential", "overlap")[k % 3]
+        n_clients = 2 if k % 5 else 3
+        chosen = [specs[rng.randrange(len(specs))] for _ in range(n_clients)]
+        if not ctx.mine():
+            continue
+        if ctx.out_of_time("multi-client sessions"):
+            break
+        fed: Dict[str, bytes] = {}
+        pieces: Dict[str, List[bytes]] = {}
+        for ci, spec in enumerate(chosen):
+            name = f"c{ci}"
+            stream = build_stream(spec)
+            sp = special_positions(stream) or list(range(1, len(stream)))
+            inner = [c for c in range(1, len(stream)) if stream[c - 1:c] != b"\n"]
+            cuts = sorted(set(rng.sample(sp, min(len(sp), rng.randint(1, 4))) + rng.sample(inner, min(len(inner), 2))))
+            pcs = cut(stream, cuts)
+            if mode != "concurrent" and ci < n_clients - 1 and len(pcs) > 1:
+                # this client's child stops mid-line: the last piece is never written
+                pcs = pcs[:-1]
+            pieces[name] = pcs
+            fed[name] = b"".join(pcs)
+        script: List[Any] = []
+        names = sorted(pieces)
+        if mode == "concurrent":
+            script += [("open", n) for n in names]
+            queue = {n: list(p) for n, p in pieces.items()}
+            while any(queue.values()):
+                n = rng.choice([n for n in names if queue[n]])
+                script += [("feed", n, queue[n].pop(0)), ("settle",)]
+        elif mode == "sequential":
+            for n in names:
+                script.append(("open", n))
+                for p in pieces[n]:
+                    script += [("feed", n, p), ("settle",)]
+                script.append(("close", n))
+        else:  # overlap: the next one opens while the previous is still alive and mid-line
+            for i, n in enumerate(names):
+                script.append(("open", n))
+                for p in pieces[n]:
+                    script += [("feed", n, p), ("settle",)]
+                if i > 0:
+                    script.append(("close", names[i - 1]))
+        case = {"multi": mode, "spec": [[list(x) for x in sp_] for sp_ in chosen],
+                "pieces": {n: [len(p) for p in ps] for n, ps in pieces.items()}, "k": k}
+        try:
+            res = run_multi_stdio(script, tie_seed=k)
+        except Exception as e:  # noqa
+            ctx.violation("reader_crashed_harness", f"multi-client session failed: {e!r}", case)
+            continue
+        ctx.count("multi_client_sessions")
+        for n in names:
+            exp_read, exp_notes = reference_framing(fed[n])
+            read = [norm_any(m) for m in res[n]["read"]]
+            ok, why = seq_match(read, exp_read)
+            ctx.count("messages_delivered", len(read))
+            if not ok:
+                ctx.violation("client_affected_by_other_client", f"{mode}: client {n} of {len(names)} in one process "
+                              f"delivered a transcript that differs from the framing of its own child's bytes: {why}", case)
+            if res[n].get("stdin", b"").strip():
+                ctx.violation("unexpected_write_back", f"reader wrote to the child: {res[n]['stdin'][:100]!r}", case)
+        ctx.record({"multi": mode, "k": k}, shape=[len(res[n]["read"]) for n in names], nontrivial=True,
+                   cls=f"multi:{mode}:{n_clients}",
+                   sample={"mode": mode, "clients": len(names), "pieces": case["pieces"],
+                           "delivered": {n: len(res[n]["read"]) for n in names}})
 
 
 def real_child_tier(ctx):
@@ -392,6 +467,10 @@ def real_child_tier(ctx):
 
 
 def replay(ctx, case):
+    if "multi" in case:
+        ctx.notes.append("multi-client cases are regenerated from the seed: re-running the multi-client tier")
+        multi_client_tier(ctx)
+        return
     spec = [tuple(s) for s in case["spec"]]
     if spec and spec[0][0] in ("long", "undrained"):
         ctx.notes.append("long-stream replays are re-generated by the thorough run; not replayable standalone")
